@@ -368,7 +368,12 @@ func checkC14Out(c C14Case, o *h.Obs) *h.Fail {
 	if moderate {
 		ti, isInt = truncInt(v)
 		// Int, with and without a destination
-		for _, dst := range []*big.Int{nil, big.NewInt(-12345)} {
+		// destinations: none, a small one, and one that held a much longer value before (all ones: whatever is
+		// not overwritten shows)
+		longer := new(big.Int).Lsh(big.NewInt(1), uint(64*(len(v.Digits)/19+4)))
+		longer.Sub(longer, big.NewInt(1))
+		longerR := new(big.Rat).SetFrac(new(big.Int).Set(longer), new(big.Int).Add(longer, big.NewInt(2)))
+		for _, dst := range []*big.Int{nil, big.NewInt(-12345), longer} {
 			gi, ga := x.Int(dst)
 			if v.Form == model.Inf {
 				wa := model.Below
@@ -387,7 +392,7 @@ func checkC14Out(c C14Case, o *h.Obs) *h.Fail {
 				return h.Failf("int", "Int(dst) did not return dst")
 			}
 		}
-		for _, dst := range []*big.Rat{nil, big.NewRat(7, 3)} {
+		for _, dst := range []*big.Rat{nil, big.NewRat(7, 3), longerR} {
 			gr, ga := x.Rat(dst)
 			if v.Form == model.Inf {
 				wa := model.Below
